@@ -227,7 +227,7 @@ def _run(skel, base_name, idx):
     elements = []                       # accepted elements in order, for direct construction
     only_adds = True
     for step, kind in enumerate(skel):
-        i1, i2, i3 = _conc(idx[step][0], 3), _conc(idx[step][1], 4 if kind in ("A", "SA") else 3), _conc(idx[step][2], 4)
+        i1, i2, i3 = _conc(idx[step][0], 3), _conc(idx[step][1], 4 if kind in ("A", "SA", "A2", "SA2") else 3), _conc(idx[step][2], 4)
         before = [_q(b, True), _q(b, False)]
         m2 = m.copy()
         if kind == "O":
@@ -248,6 +248,21 @@ def _run(skel, base_name, idx):
             call = lambda: b.add_argument(el)
             if ok:
                 m2.args.append(el)
+        elif kind in ("A2", "SA2"):     # a BATCH of two arguments in one call: the same rules as two single additions, in the given order
+            el = _ARG[(ANAMES[i1], i2)]
+            el2 = _ARG[(ANAMES[(i1 + 1) % 3], i3)]
+            if kind == "SA2":
+                m2.args = []
+                only_adds = False
+            ok = m2.can_add_arg(el)
+            if ok:
+                m2.args.append(el)
+                ok = m2.can_add_arg(el2)
+                if ok:
+                    m2.args.append(el2)
+                elif kind == "A2":
+                    elements.append(el)         # the first argument of a batch whose second one is refused stays added
+            call = (lambda: b.add_arguments(el, el2)) if kind == "A2" else (lambda: b.set_arguments(el, el2))
         elif kind == "N":
             el = _CN[i1 % 2]
             ok = True
@@ -305,11 +320,16 @@ def _run(skel, base_name, idx):
                 if [_q(b, True), _q(b, False)] != before:
                     return False       # a rejected addition leaves the builder unchanged
                 continue
+            m = m2                      # (a rejected batch / replacement: what was accepted before the offending element stays, as for single calls)
+            if False:
+                pass
             m = m2                      # a rejected replacement: the own elements of that kind are gone (see ASSUMPTIONS)
         else:
             m = m2
             if kind in ("O", "C", "A", "N"):
                 elements.append(el)
+            elif kind == "A2":
+                elements.extend([el, el2])
         if not m.invariants():
             return False
         f = b.format
@@ -345,7 +365,7 @@ def _second_index_ok(skel, *second):
     """The second index has 4 values for argument kinds (4 flag kinds) and 3 for short names."""
     for pos, v in enumerate(second):
         kind = skel[pos] if pos < len(skel) else None
-        if v > (3 if kind in ("A", "SA") else 2):
+        if v > (3 if kind in ("A", "SA", "A2", "SA2") else 2):
             return False
     return True
 
@@ -409,6 +429,7 @@ def seq_twin(a1: int, a2: int, a3: int, b1: int, b2: int, b3: int, c1: int, c2: 
 
 QUICK = [["O"], ["C"], ["A"], ["N"], ["O", "O"], ["O", "C"], ["C", "O"], ["C", "C"], ["A", "A"], ["N", "A"], ["O", "A"],
          ["O", "SO0", "O"], ["A", "SA0", "A"], ["C", "SC0", "C"], ["N", "SN0"], ["O", "SO0"], ["A", "SA0"],
+         ["A2"], ["A", "A2"], ["A2", "A"], ["SA2"], ["A", "SA2"],
          ["SO", "O"], ["O", "SO"], ["SC", "C"], ["C", "SC"], ["SA", "A"], ["A", "SA"], ["O", "SC", "O"], ["A", "A", "A"], ["O", "O", "O"], ["O", "A", "C"]]
 THOROUGH = QUICK + [["C", "C", "O"], ["O", "C", "C"], ["C", "O", "C"], ["C", "C", "C"], ["A", "SA", "A"], ["C", "SC", "C"], ["O", "SO", "C"], ["N", "N", "A"], ["A", "O", "A"], ["SO", "SC", "SA"]]
 
